@@ -170,6 +170,39 @@ def _fa_round(rec, kind, X, R, words, L, size, da, na):
                 break
 
 
+def reachable_configurations(RP, n, cap):
+    """number of distinct configurations (state, stack) reachable from the initial configuration reading at most n letters
+    (any letters); stops counting at cap (returns cap)"""
+    from collections import deque
+    by = {}
+    for m in RP[3]:
+        by.setdefault(m[0], []).append(m)
+    start = (RP[4], (), 0)
+    best = {(RP[4], ()): 0}
+    dq = deque([start])
+    while dq:
+        (p, st, k) = dq.popleft()
+        for (_, a, u, q, v) in by.get(p, ()):
+            k1 = k if a is None else k + 1
+            if k1 > n:
+                continue
+            s1 = st
+            if u is not None:
+                if not s1 or s1[-1] != u:
+                    continue
+                s1 = s1[:-1]
+            if v is not None:
+                s1 = s1 + (v,)
+            c = (q, s1)
+            if c not in best or best[c] > k1:
+                new = c not in best
+                best[c] = k1
+                if new and len(best) >= cap:
+                    return cap
+                dq.append((q, s1, k1))
+    return len(best)
+
+
 def check_case(rec, case):
     import gambatools.dfa_algorithms as da
     import gambatools.nfa_algorithms as na
@@ -202,6 +235,9 @@ def check_case(rec, case):
         rec.note_case(case, case['cls'], 0 < len(exact) < len(words))
         P = adapt.build_pda(R, case.get('eps', ''), scramble=case.get('scr'))
         size = len(R[0]) + len(R[3])
+        # every epsilon closure the library computes for a word of at most n letters is a subset of the configurations reachable
+        # with at most n letters: if there are fewer of those than the limit, no closure can be cut off
+        closures_small = reachable_configurations(R, n, case['limit']) < case['limit']
         old = GambaTools.pda_epsilon_closure_max_iterations
         try:
             GambaTools.pda_epsilon_closure_max_iterations = case['limit']
@@ -213,7 +249,9 @@ def check_case(rec, case):
                 o = sim(rec, pa.pda_simulate_word, 'pda_simulate_word', P, w, size, case['limit'])
                 if o is None:
                     break
-                if oa.value:
+                if oa.value or (w in exact and closures_small):
+                    # a run is demanded when the library's own acceptance test says True, and also when the exact oracle accepts
+                    # and NO closure of this automaton can come near the limit (epsilon moves acyclic, few epsilon paths)
                     why = 'returned None' if o.value is None else pd.check_run(R, w, [(q, r, list(s)) for (q, r, s) in o.value])
                     if why:
                         rec.violation('pda_simulate_word:not_a_run', 'the PDA trace for an accepted word is not a genuine accepting computation: ' + why, word=w, rows=(o.value or [])[:8], limit=case['limit'])
@@ -295,7 +333,7 @@ def gen_cases(rec, rng, tier):
     for R in common.shard_slice(fag.enum_dfas(2, 2), rec):
         yield {'kind': 'dfa', 'cls': 'enum_dfa', 'ref': R, 'n': 4}
     for i, R in enumerate(common.shard_slice(fag.enum_nfas(2, 1), rec)):
-        yield {'kind': 'nfa', 'cls': 'enum_nfa', 'ref': R, 'n': 3, 'eps': ('', '_')[i % 2], 'container': adapt.NFA_KINDS[i % 4]}
+        yield {'kind': 'nfa', 'cls': 'enum_nfa', 'ref': R, 'n': 3, 'eps': ('', '_')[i % 2], 'container': adapt.NFA_KINDS[i % 5]}
     # schedule-sensitive families: EVERY shard (own hash seed) runs them, plus random renamings
     for (cls, R) in fag.hostile_nfas(rng):
         yield {'kind': 'nfa', 'cls': cls, 'ref': R, 'n': 4, 'eps': 'ε', 'container': 'defaultdict_set'}
@@ -324,6 +362,9 @@ def gen_cases(rec, rng, tier):
     for i, (cls, RP) in enumerate(fam):
         if RP[1] and i % 2 == rec.shard % 2:
             yield {'kind': 'pda', 'cls': 'pda_' + cls, 'ref': RP, 'n': 4, 'limit': (5, 12, 50)[(i + rec.shard) % 3], 'eps': ('', '_')[i % 2]}
+    for i, (cls, RPa) in enumerate(pdag.concatenation_ambiguous_stacks()):
+        if i % 4 == rec.shard % 4:
+            yield {'kind': 'pda', 'cls': 'pda_' + cls, 'ref': RPa, 'n': 3, 'limit': 30, 'eps': ''}
     if rec.shard % 8 == 2:
         for (name, RP, eps) in pdag.shipped_pdas(env.REPO):
             yield {'kind': 'pda', 'cls': 'shipped_' + name, 'ref': RP, 'n': 4, 'limit': 50, 'eps': eps}
